@@ -15,7 +15,7 @@ type DiagnosticList diagnostic.DiagnosticList
 
 // Creates a new DiagnosticList.
 func DiagnosticListConstructor(class *Class) Value {
-	d := make(DiagnosticList, 5)
+	d := make(DiagnosticList, 0, 5)
 	return Ref(&d)
 }
 
